@@ -80,7 +80,11 @@ func genFastAppendField(w *codewriter, rwctx *golang.ReadWriteContext, f *golang
 	// check skip cases
 	// only for optional fields
 	if f.Requiredness == parser.FieldType_Optional {
-		if f.GoTypeName().IsPointer() || isContainerType(f.Type) {
+		if f.Type.Category == parser.Category_Binary && f.Default != nil {
+			// case 0: optional binary with a default: same test as IsSet<F> of the standard code
+			w.f("if string(%s) != string(%v) {", varname, f.DefaultValue())
+			defer w.f("}")
+		} else if f.GoTypeName().IsPointer() || isContainerType(f.Type) {
 			// case 1: optional and nil
 			w.f("if %s != nil {", varname)
 			defer w.f("}")
